@@ -1,6 +1,7 @@
 package rules
 
 import (
+	"go/token"
 	"go/types"
 	"strings"
 
@@ -27,6 +28,7 @@ func runC15(c *Check, tier string) {
 	useFamily(c, "R15g", famRestore, 20)
 	ruleAliasChainsFollowed(c, "R15j", "dag", "analysis")
 	ruleRerunBypassesGate(c, "R15k")
+	ruleRerunOnlyWhenNeeded(c, "R15l")
 	shareRule(c, "R15h", "an executed dependency counts as materialised: the completion function sets Target.OutputsLoaded on every path to success, so minimal mode does not run it again where mode all would not (same obligation as R03h)", 1, "R03h", func(sub *Check) { ruleExecutedCountsAsLoaded(sub, "R03h") }, nil)
 	shareRule(c, "R15i", "no goroutine started inside a worker slot runs commands: the dependency re-runs of minimal mode are sequential (same obligation as R03g)", 1, "R03g", func(sub *Check) { ruleNoSpawnInsideSlot(sub, "R03g") }, nil)
 }
@@ -222,8 +224,11 @@ func ruleR15c(c *Check) {
 			}
 			return false
 		}
-		skipMsg := "an iteration can skip a dependency without loading or re-running it (a shortcut that is not `len(dep.AllOutputs()) == 0`): that dependency's outputs (e.g. a bin_output) are missing or stale when the dependant runs"
-		if len(lookups) == 0 || lp.IterationCanSkip(func(in ssa.Instruction) bool { return isLookup(in) || isWork(in) }, noOutputs) {
+		skipMsg := "an iteration can skip a dependency without loading or re-running it (a shortcut that is neither `len(dep.AllOutputs()) == 0` nor 'already materialised in this build'): that dependency's outputs (e.g. a bin_output) are missing or stale when the dependant runs"
+		// a dependency that is already materialised in this build (Target.OutputsLoaded) needs nothing
+		alreadyThere := engine.CutEdgesWhere(func(a engine.Atom) bool { return a.Op == "true" && availabilityValue(a.V, 0) })
+		noWork := func(b *ssa.BasicBlock, i int) bool { return noOutputs(b, i) || alreadyThere(b, i) }
+		if len(lookups) == 0 || lp.IterationCanSkip(func(in ssa.Instruction) bool { return isLookup(in) || isWork(in) }, noWork) {
 			bad = skipMsg
 		}
 		// (2) after the lookup the iteration loads the outputs or re-runs the dependency. The merged error
@@ -461,4 +466,125 @@ func ruleRerunBypassesGate(c *Check, rule string) {
 	top := engine.TopFunc(gate)
 	reach := c.G.ReachableFuncs([]*ssa.Function{ldo}, func(f *ssa.Function) bool { return f == gate || (f == top && f != ldo) })
 	c.Require(reach[ex.ExecMethod], rule, "rerun-bypasses-gate/"+c.P.FuncName(ldo), "the loader calls the executing method without going through the gate", "every route from the dependency loader to the executing method passes the cache-hit gate ("+c.P.FuncName(gate)+"): under load_outputs=minimal the gate reports a hit as long as the target-result entry exists, so a dependency whose blobs are gone is 're-run' without running and the dependant executes without its outputs (or fails where mode all succeeds)", c.P.Pos(ldo.Pos()))
+}
+
+// availabilityValue: v is Target.OutputsLoaded, read directly or through an accessor that returns it.
+func availabilityValue(v ssa.Value, depth int) bool {
+	key := fk("model.Target", "OutputsLoaded")
+	if depth > 4 || v == nil {
+		return false
+	}
+	switch x := v.(type) {
+	case *ssa.UnOp:
+		if x.Op != token.MUL {
+			return false
+		}
+		if fa, ok := x.X.(*ssa.FieldAddr); ok {
+			return engine.FieldKeyOf(fa.X.Type(), fa.Field) == key
+		}
+		if _, ok := x.X.(*ssa.Alloc); ok {
+			// a local (a result cell spilled for a defer, a named variable)
+			sts, zero := engine.ReachingStores(x)
+			if zero || len(sts) == 0 {
+				return false
+			}
+			for _, st := range sts {
+				if !availabilityValue(st.Val, depth+1) {
+					return false
+				}
+			}
+			return true
+		}
+		return false
+	case *ssa.Field:
+		return engine.FieldKeyOf(x.X.Type(), x.Field) == key
+	case *ssa.Phi:
+		for _, e := range x.Edges {
+			if !availabilityValue(e, depth+1) {
+				return false
+			}
+		}
+		return len(x.Edges) > 0
+	case *ssa.Call:
+		h := x.Call.StaticCallee()
+		if h == nil || len(h.Blocks) == 0 || h.Signature.Results().Len() != 1 {
+			return false
+		}
+		n := 0
+		for _, r := range engine.Returns(h) {
+			if r.Block() == h.Recover {
+				continue
+			}
+			n++
+			if len(r.Results) != 1 || !availabilityValue(r.Results[0], depth+1) {
+				return false
+			}
+		}
+		return n > 0
+	}
+	return false
+}
+
+// R15l (also R03i, R19b): a dependency is run again by the dependency loader only when its restore failed or it
+// has not been materialised in this build. A dependency that the walker already executed (a no-cache target,
+// say) must not be executed once more for every dependant: that is more than once per build, more commands than
+// load_outputs=all runs, and once per path on diamond-shaped graphs.
+func ruleRerunOnlyWhenNeeded(c *Check, rule string) {
+	c.Rule(rule, "in the dependency loader every call that leads to the executing method is reachable only through the failure branch of a lookup/restore of that dependency or through the branch on which Target.OutputsLoaded (read directly or through an accessor) is false", 1)
+	ldo := anchor(c, rule, "execution", "Executor", "LoadDependencyOutputs")
+	ex := findExec(c, rule)
+	if ldo == nil || ex == nil {
+		return
+	}
+	fname := c.P.FuncName(ldo)
+	statTo := func(fn *ssa.Function) func(ssa.CallInstruction) bool {
+		return func(s ssa.CallInstruction) bool {
+			for _, cal := range c.G.CalleesOf(s) {
+				if cal == fn {
+					return true
+				}
+			}
+			return false
+		}
+	}
+	errCalls := map[ssa.CallInstruction]int{}
+	for _, f := range []*ssa.Function{c.P.Func("output", "Registry", "LoadOutputs"), c.P.Func("caching", "TargetResultCache", "Load")} {
+		if f == nil {
+			continue
+		}
+		sites, _ := liftedSites(c, ldo, statTo(f), 0)
+		for _, s := range sites {
+			errCalls[s] = engine.ErrResultIndex(s.Common().Signature())
+		}
+	}
+	allowed := engine.CutEdgesWhere(func(a engine.Atom) bool {
+		switch a.Op {
+		case "nonnil":
+			for _, o := range engine.Origins(a.V) {
+				if call, i := engine.CallOf(o); call != nil {
+					if idx, ok := errCalls[call]; ok && idx == i {
+						return true
+					}
+				}
+			}
+		case "false":
+			return availabilityValue(a.V, 0)
+		}
+		return false
+	})
+	n := 0
+	for _, r := range sitesReaching(c, ldo, fnSet(ex.ExecMethod)) {
+		n++
+		reach, _ := engine.PathExists(ldo, nil, engine.IsInstr(r), engine.PathQuery{CutEdge: allowed, Shallow: true})
+		what := "re-run"
+		for _, cal := range c.G.CalleesOf(r) {
+			if cal == ldo {
+				what = "recursive-load"
+			}
+		}
+		c.Require(!reach, rule, what+"-only-when-needed/"+fname, "reached only after a failed lookup/restore or for a dependency that is not yet materialised", "a dependency can be run again although its outputs were restored and it was already executed or loaded in this build (for instance because it carries the no-cache tag): one build executes it once in the walker and once more for every dependant — and once per path on diamond-shaped graphs of such targets", c.P.InstrPos(r))
+	}
+	if n == 0 {
+		c.Unknown(rule, "re-run-only-when-needed/"+fname, "no call in the dependency loader reaches the executing method", "-")
+	}
 }
